@@ -87,17 +87,88 @@ func ipdoms(fn *ssa.Function) map[*ssa.BasicBlock]*ssa.BasicBlock {
 	return res
 }
 
+var pureIntrinsics = map[string]bool{"math/bits.Len64": true, "math/bits.Len32": true, "math/bits.Len": true, "math/bits.OnesCount8": true, "math/bits.Len8": true, "math/bits.Len16": true,
+	"math/bits.TrailingZeros64": true, "math/bits.TrailingZeros32": true, "math/bits.TrailingZeros": true}
+
+var pureFnCache = map[*ssa.Function]bool{}
+var pureFnMu sync.Mutex
+
+// pureCallee: a straight-line (single block) function made of pure instructions only; safe to
+// evaluate inside a merged region because it can neither fork, nor write memory, nor panic.
+func pureCallee(fn *ssa.Function) bool {
+	if fn == nil {
+		return false
+	}
+	if pureIntrinsics[fn.String()] {
+		return true
+	}
+	pureFnMu.Lock()
+	r, ok := pureFnCache[fn]
+	pureFnMu.Unlock()
+	if ok {
+		return r
+	}
+	r = false
+	if _, isIntr := intrinsics[fn.String()]; !isIntr && len(fn.Blocks) == 1 {
+		r = true
+		pureFnMu.Lock()
+		pureFnCache[fn] = false // recursion guard
+		pureFnMu.Unlock()
+		for _, ins := range fn.Blocks[0].Instrs {
+			if _, isRet := ins.(*ssa.Return); isRet {
+				continue
+			}
+			switch ins.(type) {
+			case *ssa.IndexAddr, *ssa.Index, *ssa.Slice, *ssa.TypeAssert:
+				r = false // may panic
+			}
+			if u, isUn := ins.(*ssa.UnOp); isUn && u.Op == token.MUL {
+				r = false // load may hit nil
+			}
+			if !pureInstr(ins) {
+				r = false
+			}
+			if !r {
+				break
+			}
+		}
+	}
+	pureFnMu.Lock()
+	pureFnCache[fn] = r
+	pureFnMu.Unlock()
+	return r
+}
+
+func constNonZero(v ssa.Value) bool {
+	c, ok := v.(*ssa.Const)
+	if !ok || c.Value == nil {
+		return false
+	}
+	return c.Value.String() != "0"
+}
+
 func pureInstr(ins ssa.Instruction) bool {
 	switch i := ins.(type) {
 	case *ssa.BinOp:
-		return i.Op != token.QUO && i.Op != token.REM
+		if i.Op == token.QUO || i.Op == token.REM {
+			return constNonZero(i.Y)
+		}
+		return true
 	case *ssa.UnOp:
 		return i.Op != token.ARROW
 	case *ssa.IndexAddr, *ssa.Index, *ssa.Slice, *ssa.TypeAssert:
 		return true
 	case *ssa.Call:
-		bi, ok := i.Call.Value.(*ssa.Builtin)
-		return ok && (bi.Name() == "len" || bi.Name() == "cap")
+		if bi, ok := i.Call.Value.(*ssa.Builtin); ok {
+			return bi.Name() == "len" || bi.Name() == "cap"
+		}
+		if i.Call.IsInvoke() {
+			return false
+		}
+		if f, ok := i.Call.Value.(*ssa.Function); ok {
+			return pureCallee(f)
+		}
+		return false
 	case *ssa.Convert, *ssa.ChangeType, *ssa.Jump, *ssa.If, *ssa.DebugRef, *ssa.Phi, *ssa.FieldAddr, *ssa.Field, *ssa.Extract, *ssa.MakeInterface, *ssa.ChangeInterface:
 		return true
 	}
